@@ -1,7 +1,8 @@
 """C10 - transposition shifts every pitch, key and chord by the same interval (DESIGN.md §4 C10)."""
 import ast
 
-from sa import own, cov, nf, fold, astutil as U
+from sa import own, cov, nf, fold, roles, astutil as U
+from sa.roles import Canon
 from sa.loader import norm_text, dotted
 from sa.selftest import Mutant
 
@@ -41,8 +42,17 @@ def E(t):
 def run(ctx):
   fi = ctx.func(SL + ':transpose_note_sequence')
   res = own.check_borrowed(ctx, SL + ':transpose_note_sequence', {'ns': own.NS}, {'in_place': False}, ['ns'])
-  operand(ctx, fi)
-  drums(ctx, fi)
+  cfi = Canon(fi, roles.discover(fi, {
+      'note': lambda fn: [n.target.id for n in fn.body if isinstance(n, ast.For) and norm_text(n.iter).endswith('.notes') and isinstance(n.target, ast.Name)],
+      'deleted_note_count': lambda fn: roles.aug_where(fn, lambda st: isinstance(st.op, ast.Add) and U.const_value(st.value) == 1),
+      'end_time': lambda fn: roles.assigned_where(fn, lambda v, st: isinstance(v, ast.Call) and dotted(v.func) == 'max'),
+      'new_note_list': lambda fn: [s.value.func.value.id for s in U.walk_stmts(fn) if isinstance(s, ast.Expr) and isinstance(s.value, ast.Call) and
+                                   isinstance(s.value.func, ast.Attribute) and s.value.func.attr == 'append' and isinstance(s.value.func.value, ast.Name) and
+                                   s.value.args and any(isinstance(l, ast.For) and norm_text(l.iter).endswith('.notes') and norm_text(s.value.args[0]) == norm_text(l.target)
+                                                        for l in fn.body)],
+  }, required=False))
+  operand(ctx, cfi)
+  drums(ctx, cfi)
   frame(ctx, fi, res)
   tables(ctx)
   passthrough(ctx)
@@ -60,7 +70,7 @@ def operand(ctx, fi):
       isinstance(t, ast.Attribute) and t.attr == 'pitch' for t, _v, _o in U.store_targets(s))]
   ok = len(st) == 1 and isinstance(st[0], ast.AugAssign) and isinstance(st[0].op, ast.Add) and nf.rat(st[0].value).equals(A)
   if len(st) == 1 and isinstance(st[0], ast.Assign):
-    ok = nf.rat(st[0].value, {'new_pitch': cov.local_value(fn, 'new_pitch', st[0]) or E('new_pitch')}).equals(nf.rat(E('%s.pitch + amount' % v)))
+    ok = nf.rat(cov.resolve_value(fn, st[0].value, st[0])).equals(nf.rat(E('%s.pitch + amount' % v)))
   ctx.ob('OPERAND/pitch', fi, st[0] if st else loop, ok, 'pitch moves by exactly amount' if ok else
          'the pitch store is not "pitch + amount": %s' % [norm_text(s) for s in st], construct='note.pitch += amount')
   # range test
@@ -72,10 +82,8 @@ def operand(ctx, fi):
   if len(rng) == 1:
     c = rng[0]
     env = {}
-    lv = cov.local_value(fn, 'new_pitch', keep)
-    if lv is not None:
-      env['new_pitch'] = lv
-    mid = nf.rat(c.comparators[0], env)
+    mid_node = cov.resolve_value(fn, c.comparators[0], keep)
+    mid = nf.rat(mid_node, env)
     ok = isinstance(c.ops[0], ast.LtE) and isinstance(c.ops[1], ast.LtE) and norm_text(c.left) == 'min_allowed_pitch' and \
         norm_text(c.comparators[1]) == 'max_allowed_pitch' and mid.equals(nf.rat(E('%s.pitch + amount' % v)))
   ctx.ob('OPERAND/range', fi, keep, ok, 'kept iff min_allowed_pitch <= pitch + amount <= max_allowed_pitch (or drum)' if ok else
@@ -268,6 +276,7 @@ def sequences(ctx):
   fd = fold.Folder(ctx.P, ctx.S)
   # Melody.transpose
   fi = ctx.func('melodies_lib:Melody.transpose')
+  fi = Canon(fi, roles.discover(fi, {'i': lambda fn: [n.target.id for n in fn.body if isinstance(n, ast.For) and isinstance(n.target, ast.Name)]}))
   fn = fi.node
   N = fold.need(lambda: fd.module_const(fi.module, 'NOTES_PER_OCTAVE'), 'melodies_lib.NOTES_PER_OCTAVE')
   ctx.ob('SEQ/melody-octave', fi, fn, N == 12, 'NOTES_PER_OCTAVE folds to 12' if N == 12 else 'NOTES_PER_OCTAVE folds to %r' % (N,), construct='NOTES_PER_OCTAVE == 12')
@@ -295,6 +304,7 @@ def sequences(ctx):
            'the high fold is not max_note - NOTES_PER_OCTAVE + (p - max_note) % NOTES_PER_OCTAVE under p >= max_note', construct='high fold')
   # squash delegates to transpose with the computed amount and returns it
   sq = ctx.func('melodies_lib:Melody.squash')
+  sq = Canon(sq, roles.discover(sq, {'transpose_amount': lambda fn: [c.args[0].id for c in U.calls_in(fn) if norm_text(c.func) == 'self.transpose' and c.args and isinstance(c.args[0], ast.Name)]}))
   tc = [c for c in U.calls_in(sq.node) if norm_text(c.func) == 'self.transpose']
   ok = len(tc) == 1 and [norm_text(a) for a in tc[0].args] == ['transpose_amount', 'min_note', 'max_note'] and \
       isinstance(sq.node.body[-1], ast.Return) and norm_text(sq.node.body[-1].value) == 'transpose_amount'
@@ -302,6 +312,7 @@ def sequences(ctx):
          construct='self.transpose(transpose_amount, min_note, max_note); return transpose_amount')
   # ChordProgression.transpose
   cp = ctx.func('chords_lib:ChordProgression.transpose')
+  cp = Canon(cp, roles.discover(cp, {'i': lambda fn: [n.target.id for n in fn.body if isinstance(n, ast.For) and isinstance(n.target, ast.Name)]}))
   loop = next((n for n in cp.node.body if isinstance(n, ast.For)), None)
   ctx.require(loop is not None, 'ChordProgression.transpose: loop not found')
   g = loop.body[0]
@@ -365,3 +376,8 @@ MUTANTS = [
     Mutant('pitch store spelled out', F, '        note.pitch += amount\n', '        note.pitch = new_pitch\n', expect='silent'),
     Mutant('key operands swapped', F, '    ks.key = (ks.key + amount) % 12', '    ks.key = (amount + ks.key) % 12', expect='silent'),
 ]
+
+RENAME_FUNCS = [(F, 'transpose_note_sequence'), (CS, 'transpose_chord_symbol'), (CS, '_transpose_pitch_class'), (CS, '_pitch_class_to_midi'),
+                ('note_seq/melodies_lib.py', 'Melody.transpose'), ('note_seq/melodies_lib.py', 'Melody.squash'),
+                ('note_seq/chords_lib.py', 'ChordProgression.transpose'), ('note_seq/lead_sheets_lib.py', 'LeadSheet.transpose'),
+                ('note_seq/lead_sheets_lib.py', 'LeadSheet.squash')]
